@@ -13,6 +13,11 @@ Local Open Scope Z_scope.
 
 Inductive macro :=
 | MArrive (k : Z) (f : frame) (e : env) (mask : Z)   (* reader of k reads f and runs to its first park point *)
+| MArriveU (k : Z) (f : frame) (e : env) (mask : Z) (pk : Z)
+    (* the same for a call req whose id may be IN USE (duplicate against a live item or a tombstone),
+       and with an extra park point inside handleCallReq: pk = 1 the RelayHost's Destination() callback
+       (after canHandleNewCall's increment, before getDestination's step), pk = 2 the Failed callback
+       of a rejection (after getDestination / the remote admission, before the decrement) *)
 | MCont (t : tid) (mask : Z)                          (* a parked goroutine continues to its next park point *)
 | MFire (key : key)                                   (* the pending timeout timer of that item fires *)
 | MGcAll                                              (* every pending tomb GC timer fires *)
@@ -60,6 +65,38 @@ Fixpoint mrun (cf : config) (fuel : nat) (st : state) (t : tid) (mask : Z) : opt
       end
   end.
 
+(* the extra park points of MArriveU *)
+Definition is_park_x (pk : Z) (j : instr) : bool :=
+  is_park j ||
+  match j with
+  | IGetDest _ _ _ _ => pk =? 1
+  | ICb _ (CbFailed _) => pk =? 2
+  | _ => false
+  end.
+
+Fixpoint mrun_x (cf : config) (fuel : nat) (st : state) (t : tid) (mask : Z) (pk : Z) : option state :=
+  match fuel with
+  | O => None
+  | S fuel' =>
+      match lookup tid_eqb t (threads st) with
+      | Some (i :: _) =>
+          match step cf st (LStep t (room_for mask i)) with
+          | None => None
+          | Some st' =>
+              match lookup tid_eqb t (threads st') with
+              | Some (j :: _) =>
+                  if is_park_x pk j then Some st'
+                  else match i with
+                       | IEntomb _ (FromTimeout _) => Some st'
+                       | _ => mrun_x cf fuel' st' t mask pk
+                       end
+              | _ => Some st'
+              end
+          end
+      | _ => None
+      end
+  end.
+
 Definition find_tm (key : key) (l : list (Z * timer)) : option Z :=
   match find (fun p => key_eqb key (tm_key (snd p))) l with
   | Some p => Some (fst p)
@@ -89,6 +126,15 @@ Definition mstep (cf : config) (st : state) (m : macro) : option state :=
         | None => None
         end
       else None
+  | MArriveU k f e mask pk =>
+      match step cf st (LArrive k f e) with
+      | Some st' =>
+          match lookup tid_eqb (TR k) (threads st') with
+          | Some _ => mrun_x cf 200%nat st' (TR k) mask pk
+          | None => Some st'
+          end
+      | None => None
+      end
   | MCont t mask => mrun cf 200%nat st t mask
   | MFire key =>
       match lookup key_eqb key (items st) with
@@ -98,7 +144,11 @@ Definition mstep (cf : config) (st : state) (m : macro) : option state :=
   | MGcAll => gc_all cf (S (length (gcs st))) st
   | MClose k => step cf st (LClose k)
   | MLost k => step cf st (LLost k)
-  | MDrained k => step cf st (LDrained k)
+  | MDrained k =>
+      (* the engine saw connection k reach the closed state: either by the close check of the
+         goroutine that decremented pending (ICheck, already executed in the model) or by the
+         check of the closing goroutine itself (the label LDrained) *)
+      if c_state (get_conn st k) =? c_connectionClosed then Some st else step cf st (LDrained k)
   end.
 
 Fixpoint mrun_all (cf : config) (st : state) (ms : list macro) (n : Z) : state * Z :=
@@ -134,6 +184,13 @@ Definition take_macro (l : list Z) : macro * list Z :=
   | 4 :: k :: r => (MClose k, r)
   | 5 :: k :: r => (MLost k, r)
   | 6 :: k :: r => (MDrained k, r)
+  | 7 :: k :: r =>
+      let '(f, r1) := take_frame r in
+      match r1 with
+      | es :: ec :: ed :: em :: mask :: pk :: r2 =>
+          (MArriveU k f {| e_start := es; e_code := ec; e_dest := ed; e_mode := em |} mask pk, r2)
+      | _ => (MGcAll, [])
+      end
   | _ => (MGcAll, [])
   end.
 
